@@ -241,6 +241,13 @@ def gen_cases(ctx, root, files, longdirs):
         cfg = default_cfg(rng)
         line = b"GET /index.vnc?" + q + rng.choice([b"\n\n", b" HTTP/1.0\r\n\r\n"])
         cases.append(dict(cls="poison", cfg=cfg, reqs=[[line]] * len(POISONS), poison=POISONS))
+    # C''. requests over real loopback connections accepted by rfbHttpCheckFds from the IPv4 and the IPv6 HTTP listener
+    lreqs = [b"GET /plain.txt HTTP/1.0\r\n", b"GET /plain.txt HTTP/1.0\r\n\r\n", b"GET / HTTP/1.0\r\n\r\n", b"GET /index.vnc?a=b HTTP/1.1\r\nHost: x\r\n\r\n",
+             b"GET /../secret.txt HTTP/1.0\r\n\r\n", b"G", b"POST / HTTP/1.0\r\n\r\n", b"GET /%2e%2e/secret.txt HTTP/1.0\r\n\r\n", b"GET /sub/deep/x.html\n\n",
+             b"GET /nonexistent HTTP/1.0\r\nX: y\r\n"]
+    for fam in (4, 6):
+        for lr in lreqs:
+            add("listener", default_cfg(rng), [dict(lreq=fam, data=lr)] + ([segment(rng, req_line(rng, b"/plain.txt"))] if rng.random() < 0.5 else []))
     # D. not a GET
     others = [b"POST / HTTP/1.0\r\n\r\n", b"HEAD / HTTP/1.0\r\n\r\n", b"get / HTTP/1.0\r\n\r\n", b" GET / HTTP/1.0\r\n\r\n", b"GET\t/ HTTP/1.0\r\n\r\n",
               b"GET/ HTTP/1.0\r\n\r\n", b"GET \r\n\r\n", b"GET  \t \r\n\r\n", b"GET", b"\r\n\r\n", b"\n\n", b"\x00GET / HTTP/1.0\r\n\r\n",
@@ -362,8 +369,16 @@ def case_lines(k, case):
     for i, segs in enumerate(case["reqs"]):
         if pz:
             L.append("poison " + hx(pz[i % len(pz)]))
-        L.append("req " + " ".join(s if isinstance(s, str) else hx(s) for s in segs))
+        if isinstance(segs, dict):
+            L.append("lreq %d %s" % (segs["lreq"], hx(segs["data"])))
+        else:
+            L.append("req " + " ".join(s if isinstance(s, str) else hx(s) for s in segs))
     return L
+
+
+def segs_of(r):
+    """read() segments of a request entry (a listener request is one segment)"""
+    return [r["data"]] if isinstance(r, dict) else r
 
 
 def parse_case_lines(lines):
@@ -377,6 +392,8 @@ def parse_case_lines(lines):
         q = l.split()
         if q and q[0] == "req":
             reqs.append([s if s in ("EOF", "ERR") else unhx(s) for s in q[1:]])
+        elif q and q[0] == "lreq":
+            reqs.append(dict(lreq=int(q[1]), data=unhx(q[2])))
         elif q and q[0] == "poison":
             pz.append(unhx(q[1]))
     c = dict(cls=hdr[2] if len(hdr) > 2 else "corpus", cfg=cfg, reqs=reqs)
@@ -400,7 +417,7 @@ def blocks(lines):
     for l in lines:
         if l == "poison":
             continue
-        if l == "req":
+        if l in ("req", "lreq"):
             cur = []
             out.append(cur)
         elif cur is not None:
@@ -486,6 +503,10 @@ def oracle_req(env, cfg, segs, impl):
     crash = [l for l in impl if l.startswith("crash")]
     if crash:
         feat.update(kind="crash", asan=crash[0].split()[1] if len(crash[0].split()) > 1 else "?")
+        if "timeout" in crash[0]:
+            feat.update(kind="stall")
+            return ("rfbHttpCheckFds does not return: an HTTP connection%s blocks the event loop (RFB service stalled)" %
+                    (" without terminating blank line" if not has_blank else ""), feat)
         return ("httpd does not survive the request: implementation %s" % crash[0], feat)
     if not impl or not any(l.startswith("status") for l in impl):
         feat.update(kind="no-observation")
@@ -586,7 +607,7 @@ def compare_case(env, case, ilines, mlines):
         ref = ib[0]
         for r in range(1, len(ib)):
             if ib[r] != ref:
-                m = re.match(rb"GET[ \t\x0b\x0c]+([^ \t\x0b\x0c\r\n]+)", c_string(delivered(case["reqs"][r])))
+                m = re.match(rb"GET[ \t\x0b\x0c]+([^ \t\x0b\x0c\r\n]+)", c_string(delivered(segs_of(case["reqs"][r]))))
                 tok = m.group(1) if m else b""
                 q = tok.split(b"?", 1)[1] if b"?" in tok else b"x"
                 d = vlib.first_diff(ib[r], ref)
@@ -596,15 +617,20 @@ def compare_case(env, case, ilines, mlines):
                               dict(kind="uninit-dependence", proxy=case["cfg"]["proxy"],
                                    empty_piece=int(any(p == b"" for p in q.split(b"&"))))))
                 break
-    for r, segs in enumerate(case["reqs"]):
+    for r, rq in enumerate(case["reqs"]):
+        segs = segs_of(rq)
         impl = ib[r] if r < len(ib) else []
         tree, alt = split_alt(mb[r]) if r < len(mb) else ([], [])
+        if impl == ["unsupported"]:
+            continue
         e = oracle_req(env, case["cfg"], segs, impl)
+        if e and isinstance(rq, dict):
+            e[1]["listener"] = rq["lreq"]
         if e:
             ofail.append((r, e[0], e[1]))
         icr = [l for l in impl if l.startswith("crash")]
         if icr:
-            if not any(l.startswith("crash") for l in tree) and mism is None:
+            if not any(l.startswith("crash") for l in tree + alt) and mism is None:
                 mism = (r, "implementation crashed, model (tree variant) does not: " + "|".join(tree)[:200])
             break      # the child is gone: later requests of the case were not run
         if impl == tree:
@@ -612,7 +638,7 @@ def compare_case(env, case, ilines, mlines):
         if impl == alt:
             nalt += 1
             continue
-        if case.get("poison") and any(l == "crash uninitread" for l in tree):
+        if case.get("poison") and any(l == "crash uninitread" for l in tree + alt):
             continue      # the model says: undefined here; the determinism oracle above judges
         if mism is None:
             d = vlib.first_diff(impl, tree)
@@ -647,7 +673,7 @@ def evaluate(ctx, env, cases):
 def shrink_case(ctx, env, case, pred):
     """pred(case) -> bool (still failing).  Reduce requests, then segments, then bytes."""
     c = dict(case)
-    if c.get("poison"):
+    if c.get("poison") or any(isinstance(r, dict) for r in c["reqs"]):
         return c
     if len(c["reqs"]) > 1:
         for i in range(len(c["reqs"])):
